@@ -145,12 +145,14 @@ func (m *Machine) smtTrimSpace(fr *Frame, s *Term) *Term {
 	l, r, t := m.freshStr("trimL"), m.freshStr("trim"), m.freshStr("trimR")
 	ws := m.wsRegex()
 	wsStar := tf.App(WRegLan, "re.*", ws)
-	all := tf.App(WRegLan, "re.all")
 	m.addPC(tf.App(0, "=", s, tf.App(WString, "str.++", l, r, t)))
 	m.addPC(tf.App(0, "str.in_re", l, wsStar))
 	m.addPC(tf.App(0, "str.in_re", t, wsStar))
-	m.addPC(tf.Not(tf.App(0, "str.in_re", r, tf.App(WRegLan, "re.++", ws, all))))
-	m.addPC(tf.Not(tf.App(0, "str.in_re", r, tf.App(WRegLan, "re.++", all, ws))))
+	// r neither starts nor ends with white space (str.at yields "" outside the string, which is not white space)
+	zero := tf.Const(WInt, 0)
+	last := tf.App(WInt, "-", tf.App(WInt, "str.len", r), tf.Const(WInt, 1))
+	m.addPC(tf.Not(tf.App(0, "str.in_re", tf.App(WString, "str.at", r, zero), ws)))
+	m.addPC(tf.Not(tf.App(0, "str.in_re", tf.App(WString, "str.at", r, last), ws)))
 	m.trimCache[s] = r
 	m.noteStub("strings.TrimSpace summarised in the theory of strings (ASCII white space)")
 	return r
@@ -213,6 +215,33 @@ func (m *Machine) smtSplit(fr *Frame, s *Term, sep string) []Value {
 	return out
 }
 
+// foldRegex: the regular expression matching exactly the ASCII case variants of lit.
+func (m *Machine) foldRegex(lit string) *Term {
+	tf := m.tf
+	if lit == "" {
+		return tf.App(WRegLan, "str.to_re", tf.StrLit(""))
+	}
+	var parts []*Term
+	for i := 0; i < len(lit); i++ {
+		c := lit[i]
+		lo, up := c, c
+		if c >= 'a' && c <= 'z' {
+			up = c - 32
+		} else if c >= 'A' && c <= 'Z' {
+			lo = c + 32
+		}
+		r := tf.App(WRegLan, "str.to_re", tf.StrLit(string(lo)))
+		if up != lo {
+			r = tf.App(WRegLan, "re.union", r, tf.App(WRegLan, "str.to_re", tf.StrLit(string(up))))
+		}
+		parts = append(parts, r)
+	}
+	if len(parts) == 1 {
+		return parts[0]
+	}
+	return tf.App(WRegLan, "re.++", parts...)
+}
+
 func (m *Machine) lower(t *Term) *Term {
 	if t.Op == OpStrLit {
 		return m.tf.StrLit(strings.ToLower(t.Name))
@@ -222,6 +251,7 @@ func (m *Machine) lower(t *Term) *Term {
 
 // uf declares (on first use) and applies an uninterpreted function.
 func (m *Machine) uf(sort uint8, name string, args ...*Term) *Term {
+	m.ufCount++
 	return m.tf.App(sort, "uf:"+name, args...)
 }
 
@@ -236,7 +266,15 @@ func addStringIntrinsics(t map[string]Intrinsic) {
 	}
 	t["strings.EqualFold"] = smtOnly(func(m *Machine, fr *Frame, fn *ssa.Function, a []Value) Value {
 		m.noteStub("strings.EqualFold summarised as equality of ASCII lower-casings")
-		return m.tf.App(0, "=", m.lower(m.strTerm(a[0])), m.lower(m.strTerm(a[1])))
+		x, y := m.strTerm(a[0]), m.strTerm(a[1])
+		if x.Op == OpStrLit {
+			x, y = y, x
+		}
+		if y.Op == OpStrLit {
+			// against a literal: membership in the case-insensitive regular expression of the literal
+			return m.tf.App(0, "str.in_re", x, m.foldRegex(y.Name))
+		}
+		return m.tf.App(0, "=", m.lower(x), m.lower(y))
 	})
 	t["strings.ToLower"] = smtOnly(func(m *Machine, fr *Frame, fn *ssa.Function, a []Value) Value {
 		m.noteStub("strings.ToLower summarised as str.to_lower (ASCII)")
